@@ -21,6 +21,7 @@ theorem uncompact_go_bounded (numOut res : Int) :
     split
     · simpa using h
     · simp only []
+      generalize childrenFuel (iterInitParent c res) _ = kids
       split
       · -- capacity exceeded: exactly `room` more cells are written
         simp only [Array.size_append, List.size_toArray, List.length_take]
